@@ -264,6 +264,51 @@ func init() {
 			if diff > 0 {
 				flags += fmt.Sprintf("!CONCURRENT-ANSWER-DIFFERS:%d of %d, first req=%d", diff, len(reqs), first)
 			}
+			// pass 4: warm cache, no instrumentation, every goroutine asks its own few requests over and over while
+			// the others do the same (fast paths in front of the locks are only reachable this way)
+			e4 := newHistEngines(ls, fileBacked)
+			for _, rq := range reqs {
+				e4.runOp(rq)
+			}
+			var hammerDiff int64
+			hammerFirst := int64(-1)
+			var hmu sync.Mutex
+			var wg4 sync.WaitGroup
+			for w := 0; w < n; w++ {
+				wg4.Add(1)
+				go func(w int) {
+					defer wg4.Done()
+					for it := 0; it < 3000/n+40; it++ {
+						i := (w*7 + it%5) % len(reqs)
+						var g string
+						var c int
+						if p, _ := protect(func() {
+							var rr *histResult
+							g, rr, _ = e4.runOp(reqs[i])
+							c = rr.count()
+						}); p || g != want[i] || c != wantN[i] {
+							hmu.Lock()
+							hammerDiff++
+							if hammerFirst < 0 {
+								hammerFirst = int64(i)
+							}
+							hmu.Unlock()
+						}
+					}
+				}(w)
+			}
+			done4 := make(chan struct{})
+			go func() { wg4.Wait(); close(done4) }()
+			select {
+			case <-done4:
+			case <-time.After(60 * time.Second):
+				flags += "!CONCURRENT-QUERIES-BLOCK-FOREVER"
+			}
+			e4.cleanup()
+			if hammerDiff > 0 {
+				diff += int(hammerDiff)
+				flags += fmt.Sprintf("!CONCURRENT-ANSWER-DIFFERS-ON-WARM-CACHE:%d, first req=%d", hammerDiff, hammerFirst)
+			}
 			for _, k := range c14Kinds {
 				if mon3.bad[k.kind] > 0 {
 					flags += fmt.Sprintf("!LOCK-NOT-HELD-CONCURRENT:%s x%d", k.name, mon3.bad[k.kind])
